@@ -172,7 +172,7 @@ def main():
                 "level_note": t["note"] + " Trusted base: CPython ast; user code, libgraphqlparser, lark, asyncio outside the analysed program. "
                               "Before any rule runs the model is put into a canonical form (DESIGN E10/E11): a function that equals the pinned tree's function modulo "
                               "semantics-preserving rewrites (local renames, extracted helpers, guard clauses, comprehensions, temporaries ...) is analysed in the reference's shape; "
-                              "any other function is analysed as it stands. The soundness of the rewrites is exercised on every thorough run (5458 behaviour-changing mutants, none equated).",
+                              "any other function is analysed as it stands. The soundness of the rewrites is exercised on every thorough run (5662 behaviour-changing mutants, none equated).",
                 "technique": "static analysis: " + t["technique"],
             })
         else:
